@@ -24,6 +24,9 @@ pub struct SphereCase {
     /// discarded (forced through the signer's byte stream, see `util::RestartRng`)
     #[serde(default)]
     restarts: usize,
+    /// further signatures projected only onto the two ends of the Gram-Schmidt profile
+    #[serde(default)]
+    extreme_extra: usize,
 }
 
 pub struct Spherical {
@@ -76,7 +79,7 @@ impl Sub for Spherical {
     fn strategy(&self, _env: &Env) -> BoxedStrategy<SphereCase> {
         let (s512, s1024, tests, restarts) = (self.signatures512, self.signatures1024, self.tests, self.restarts);
         (prop_oneof![2 => Just(512usize), 1 => Just(1024usize)], any::<[u8; 32]>(), any::<u64>())
-            .prop_map(move |(n, s, msg_base)| SphereCase { n, seed: seed_hex(&s), signatures: if n == 512 { s512 } else { s1024 }, msg_base, tests, restarts })
+            .prop_map(move |(n, s, msg_base)| SphereCase { n, seed: seed_hex(&s), signatures: if n == 512 { s512 } else { s1024 }, msg_base, tests, restarts, extreme_extra: 0 })
             .boxed()
     }
     fn check(&self, c: &SphereCase, st: &mut Stats) -> Result<(), Fail> {
@@ -259,6 +262,57 @@ impl Sub for Spherical {
         }
         st.range("max_abs_z_over_gram_schmidt_bins", worst_bin);
 
+        // ---- 3b. the two ends of the Gram-Schmidt profile (the dim/64 shortest and the dim/64
+        // longest directions: leaves next to sigma_max and next to sigma_min), with many more
+        // signatures than the full test can afford: `extra` further signatures are made (plain
+        // seeded signing, no rotation) and projected onto these directions only
+        if c.extreme_extra > 0 && c.restarts == 0 {
+            let k = (dim / 64).max(8);
+            let ends: [(&str, Vec<usize>); 2] = [("shortest", idx[..k].to_vec()), ("longest", idx[dim - k..].to_vec())];
+            let extra = c.extreme_extra;
+            let sums: Vec<Result<[f64; 2], Fail>> = par_map(extra, 16, |j| {
+                crate::engine::no_panic(|| {
+                    let msg = (c.msg_base ^ mix(0xE47 + j as u64)).to_le_bytes().to_vec();
+                    let sig = api::sign_with(&msg, &key.sk, Box::new(crate::util::chacha(mix(c.msg_base ^ 0xE47) ^ j as u64))).to_bytes();
+                    let s2 = codec::decode(&sig[41..], n).ok_or_else(|| Fail::new("sphere:malformed", "an honest signature does not decompress"))?;
+                    let mut r_cat_m = sig[1..41].to_vec();
+                    r_cat_m.extend_from_slice(&msg);
+                    let cpt = hash::hash_to_point(&r_cat_m, n);
+                    let s2h = zq::negacyclic_mul_fast(&s2, &h);
+                    let v: Vec<f64> = (0..n).map(|i| zq::centred(cpt[i] - s2h[i]) as f64).chain(s2.iter().map(|&x| x as f64)).collect();
+                    let mut out = [0.0f64; 2];
+                    for (e, (_, members)) in ends.iter().enumerate() {
+                        for &i in members {
+                            let pr: f64 = v.iter().zip(gs_dirs[i].iter()).map(|(a, b)| a * b).sum();
+                            out[e] += pr * pr;
+                        }
+                    }
+                    Ok(out)
+                })
+                .unwrap_or_else(|p| Err(Fail::new(format!("sphere:sign-panic:{}", crate::engine::panic_site(&p)), format!("signing panicked: {}", p))))
+            });
+            let mut tot = [0.0f64; 2];
+            for r in sums {
+                let r = r?;
+                tot[0] += r[0];
+                tot[1] += r[1];
+            }
+            for (e, (name, members)) in ends.iter().enumerate() {
+                let from_history: f64 = members.iter().map(|&i| m_gs[i].1).sum();
+                let cnt = (members.len() * (count + extra)) as f64;
+                let r = (tot[e] + from_history) / cnt / sigma2;
+                let z = (r - 1.0) / (2.0 / cnt).sqrt();
+                st.range(&format!("z_of_the_{}_gram_schmidt_directions", name), z);
+                ensure!(
+                    z.abs() <= Z_POOLED,
+                    "sphere:gram-schmidt-extreme",
+                    "Falcon-{}: along the {} {} Gram-Schmidt directions (||b~|| in [{:.2}, {:.2}]) the second moment over {} signatures is {:.4} sigma^2 (z = {:+.1}, allowed +-{}): the width depends on the secret basis at the end of its Gram-Schmidt profile",
+                    n, members.len(), name, gs_norms[members[0]], gs_norms[*members.last().unwrap()], count + extra, r, z, Z_POOLED
+                );
+            }
+            st.add("signatures_for_the_ends_of_the_gram_schmidt_profile", extra as u64);
+        }
+
         // ---- 4. every single direction: variance (exact chi-square tail) and mean
         let tests_total = (4 * dim) as f64 * c.tests.max(1) as f64; // 2 families x 2 tests x 2n directions x keys
         let p_each = P_DIRECTIONS / tests_total * c.tests.max(1) as f64; // budget per key, then per test
@@ -313,7 +367,7 @@ impl Sub for Spherical {
 }
 
 const META: Meta = Meta {
-    rule: "proptest (variant, key seed, message base); for each key N signatures over distinct messages are made with a seeded uniform byte stream (SignRng hook), by threads that first signed once with another key of the same variant held in the same memory slot (key rotation in place), while six other threads sign continuously with two other keys (other variant, same variant), and observed through their bytes only: s2 decoded, s1 = c - s2 h recomputed. Directions come from the secret basis: the 2n orthonormal Gram-Schmidt directions of [[g,-f],[G,-F]] (rows in the ffLDL tree's bit-reversed rotation order) and the 2n normalised basis rows. Invariants: every signature within floor(beta^2); pooled second moment = sigma^2 within z = 6.5; second moment per octile bin of ||b~_i|| = sigma^2 within z = 6.5; for every single direction the second moment within the exact chi-square_N interval and the mean within a normal interval, Bonferroni-corrected to 1e-9 per key. Non-trivial = a key with N >= 1000 signatures (counted once) plus its 8 direction bins; distinct by (variant, seed).",
+    rule: "proptest (variant, key seed, message base); for each key N signatures over distinct messages are made with a seeded uniform byte stream (SignRng hook), by threads that first signed once with another key of the same variant held in the same memory slot (key rotation in place), while six other threads sign continuously with two other keys (other variant, same variant), and observed through their bytes only: s2 decoded, s1 = c - s2 h recomputed. Directions come from the secret basis: the 2n orthonormal Gram-Schmidt directions of [[g,-f],[G,-F]] (rows in the ffLDL tree's bit-reversed rotation order) and the 2n normalised basis rows. Invariants: every signature within floor(beta^2); pooled second moment = sigma^2 within z = 6.5; second moment per octile bin of ||b~_i|| = sigma^2 within z = 6.5; the same for the dim/64 shortest and the dim/64 longest Gram-Schmidt directions (the leaves next to sigma_max and sigma_min) over 12 000-14 000 further signatures per key that are projected onto those directions only; for every single direction the second moment within the exact chi-square_N interval and the mean within a normal interval, Bonferroni-corrected to 1e-9 per key. Non-trivial = a key with N >= 1000 signatures (counted once) plus its 8 direction bins; distinct by (variant, seed).",
     assumptions: &[
         "the honest distribution differs from the ideal spherical Gaussian only by the norm rejection (about 1e-6) and the compression rejection (about 1e-7), far below the resolution of these tests, so tolerances are purely statistical",
         "design false-alarm probability per key: 2 * 8e-11 * 9 (pooled and bins) + 1e-9 (directions) < 3e-9; the run is a deterministic function of VERIF_SEED",
@@ -325,6 +379,7 @@ pub fn run(env: &Env, replay: Option<&Path>) -> i32 {
     let mut report = Report::new();
     let (k512, k1024, s512, s1024) = env.tier.pick((2usize, 1usize, 4000usize, 2000usize), (16, 8, 20_000, 10_000));
     let tests = (k512 + k1024 + 2) as u32;
+    let (extra512, extra1024) = env.tier.pick((12_000usize, 14_000usize), (40_000, 40_000));
     let sub = Spherical { signatures512: s512, signatures1024: s1024, tests, restarts: 0 };
     let subs: [&dyn DynSub; 1] = [&sub];
     if let Some(p) = replay {
@@ -339,10 +394,10 @@ pub fn run(env: &Env, replay: Option<&Path>) -> i32 {
         .into_iter()
         .map(|s| (1024usize, s))
         .chain(api::seed_list(env.seed, 0xC10, k512).into_iter().map(|s| (512usize, s)))
-        .map(|(n, s)| SphereCase { n, seed: seed_hex(&s), signatures: if n == 512 { s512 } else { s1024 }, msg_base: mix(env.seed ^ 0xC10), tests, restarts: 0 })
+        .map(|(n, s)| SphereCase { n, seed: seed_hex(&s), signatures: if n == 512 { s512 } else { s1024 }, msg_base: mix(env.seed ^ 0xC10), tests, restarts: 0, extreme_extra: if n == 512 { extra512 } else { extra1024 } })
         // and the signatures a signer emits after it has discarded one or two attempts itself
-        .chain(api::seed_list(env.seed, 0xC10_0001, 1).into_iter().map(|s| SphereCase { n: 512, seed: seed_hex(&s), signatures: s512 / 2, msg_base: mix(env.seed ^ 0xC10_0001), tests, restarts: 1 }))
-        .chain(api::seed_list(env.seed, 0xC10_0002, 1).into_iter().map(|s| SphereCase { n: 1024, seed: seed_hex(&s), signatures: s1024 / 2, msg_base: mix(env.seed ^ 0xC10_0002), tests, restarts: 2 }))
+        .chain(api::seed_list(env.seed, 0xC10_0001, 1).into_iter().map(|s| SphereCase { n: 512, seed: seed_hex(&s), signatures: s512 / 2, msg_base: mix(env.seed ^ 0xC10_0001), tests, restarts: 1, extreme_extra: 0 }))
+        .chain(api::seed_list(env.seed, 0xC10_0002, 1).into_iter().map(|s| SphereCase { n: 1024, seed: seed_hex(&s), signatures: s1024 / 2, msg_base: mix(env.seed ^ 0xC10_0002), tests, restarts: 2, extreme_extra: 0 }))
         .collect();
     drive_enumerated(env, &sub, cases.into_iter(), &mut report);
     finish(env, report, &META)
